@@ -1525,3 +1525,96 @@ Proof.
     apply bsum_ext. intros w Hw. unfold A01. destruct (memn w (row p u)); [|ring].
     rewrite (IH w t Hw Ht). ring.
 Qed.
+
+(* ------------------------------------------------------------------------------------------ *)
+(** * Part F. The statements about the two phases *)
+
+(** Forward phase from source s: the queue empties within n pops; dists are the exact hop distances
+    (-1 = unreachable); sigma[v] is the number of shortest paths (explicit node lists) from s to v,
+    0 when unreachable; preds[v] is, without repetition, the set of in-neighbours one level closer. *)
+Theorem brandes_sigma_counts_shortest_paths_proof (p : graph) (s : nat) :
+  gwf p -> gnd p -> s < length p ->
+  let st := fst (brandes_forward p s) in
+  let seen := snd (brandes_forward p s) in
+  b_queue st = [] /\ NoDup seen /\
+  forall v, v < length p ->
+    (forall k, nthz (b_dists st) v = Z.of_nat k <-> hop p (single_source (length p) s) v k) /\
+    (nthz (b_dists st) v = (-1)%Z <-> forall k, ~ reachk p (single_source (length p) s) k v) /\
+    (In v seen <-> (0 <= nthz (b_dists st) v)%Z) /\
+    (forall k, hop p (single_source (length p) s) v k ->
+       nthz (b_sigma st) v = Z.of_nat (length (shortest_paths p s v k))) /\
+    (nthz (b_dists st) v = (-1)%Z -> nthz (b_sigma st) v = 0%Z) /\
+    NoDup (nth v (b_preds st) []) /\
+    (forall u, In u (nth v (b_preds st) []) <->
+       In v (row p u) /\ (0 <= nthz (b_dists st) u)%Z /\ (nthz (b_dists st) u + 1 = nthz (b_dists st) v)%Z).
+Proof.
+  intros Hwf Hnd Hs st seen. destruct (forward_final p s Hwf Hnd Hs) as [Hq HF]. fold st seen in Hq, HF.
+  split; [exact Hq|]. split; [exact (f_nd _ _ _ _ _ _ HF)|]. intros v Hv.
+  split; [intros k; exact (f_dist _ _ _ _ _ _ HF v k Hv)|].
+  split; [exact (f_unreach _ _ _ _ _ _ HF v Hv)|].
+  split; [exact (f_seen _ _ _ _ _ _ HF v Hv)|].
+  split.
+  { intros k Hh. apply (f_dist _ _ _ _ _ _ HF v k Hv) in Hh.
+    assert (E := f_sigma _ _ _ _ _ _ HF v k Hv Hh). rewrite <- (cntw_nw p Hwf Hnd k s v Hs Hv) in E.
+    unfold zq, qn, cntw in E. exact (proj1 (inject_Z_injective _ _) E). }
+  split.
+  { intros E. apply (f_sigma0 _ _ _ _ _ _ HF v Hv). intros Hin. apply (f_seen _ _ _ _ _ _ HF v Hv) in Hin.
+    unfold dzf in Hin. lia. }
+  rewrite (f_preds _ _ _ _ _ _ HF v Hv). split.
+  { apply NoDup_filter, NoDup_rev. exact (f_nd _ _ _ _ _ _ HF). }
+  intros u. rewrite filter_In. unfold pc. rewrite andb_true_iff, Z.eqb_eq, memn_In, <- in_rev. unfold dzf. split.
+  - intros (H1 & H2 & H3). split; [exact H2|]. split; [|exact H3].
+    apply (f_seen _ _ _ _ _ _ HF u (f_lt _ _ _ _ _ _ HF u H1)). exact H1.
+  - intros (H1 & H2 & H3). split; [|split; assumption].
+    apply (f_seen _ _ _ _ _ _ HF u (row_nonempty_lt _ _ _ H1)). exact H2.
+Qed.
+
+(** Backward phase: the accumulated delta satisfies Brandes' recurrence over the predecessor lists, it
+    is the dependency sum_{t <> v} sigma_st(v) / sigma_st of the source on every reachable v, and the
+    scores grow by exactly that dependency (nothing for v = s or v unreachable). *)
+Theorem brandes_delta_recurrence_proof (p : graph) (s : nat) (sc0 : list Q) :
+  gwf p -> gnd p -> s < length p -> length sc0 = length p ->
+  let st := fst (brandes_forward p s) in
+  let seen := snd (brandes_forward p s) in
+  let acc := fold_left (back_step s (b_sigma st) (b_preds st)) seen (repeat 0%Q (length p), sc0) in
+  let dep := fun v => bsum (length p) (fun t => if Nat.eqb t v then 0%Q else pair_dependency p s t v) in
+  brandes_source p sc0 s = snd acc /\
+  (forall v, v < length p ->
+     (V (fst acc) v == bsum (length p) (fun w =>
+        if memn v (nth w (b_preds st) [])
+        then zq (nthz (b_sigma st) v) / zq (nthz (b_sigma st) w) * (1 + V (fst acc) w) else 0))%Q) /\
+  (forall v, v < length p -> (0 <= nthz (b_dists st) v)%Z -> (V (fst acc) v == dep v)%Q) /\
+  (forall v, v < length p -> (nthz (b_dists st) v < 0)%Z -> (dep v == 0)%Q) /\
+  (forall v, v < length p -> (V (snd acc) v == V sc0 v + (if Nat.eqb v s then 0 else dep v))%Q).
+Proof.
+  intros Hwf Hnd Hs L st seen acc dep. destruct (forward_final p s Hwf Hnd Hs) as [_ HF]. fold st seen in HF.
+  destruct (backward_result p s Hs seen _ _ _ HF sc0 L) as (_ & H2 & _). fold acc in H2.
+  split; [apply brandes_source_eq|]. split; [exact H2|]. split; [|split].
+  - intros v Hv H0. apply (delta_is_dependency p s Hwf Hs seen _ _ _ HF (fst acc) H2 v (Z.to_nat (nthz (b_dists st) v)) Hv).
+    apply dfun_of_some. unfold dzf. lia.
+  - intros v Hv Hneg. apply (DD_unreach p s (dfun_of (b_dists st)) (dfun_unreach p s Hwf Hs seen _ _ _ HF) v Hv).
+    unfold dfun_of, dzf. destruct (0 <=? nthz (b_dists st) v)%Z eqn:E; [apply Z.leb_le in E; lia|reflexivity].
+  - exact (proj2 (one_source_scores p s Hwf Hs seen _ _ _ HF sc0 L)).
+Qed.
+
+(** The pair dependency of the specification in terms of explicit path counts:
+    sigma_st(v) / sigma_st = #sp(s,v) * #sp(v,t) / #sp(s,t) when v lies on a shortest s-t path
+    (d(s,v) + d(v,t) = d(s,t)), written with the walks of d(s,t) - d(s,v) edges from v to t, which are
+    shortest paths exactly in that case and do not exist otherwise. *)
+Theorem pair_dependency_paths_proof (p : graph) (s t v dt dv : nat) :
+  gwf p -> gnd p -> s < length p -> t < length p -> v < length p ->
+  hop p (single_source (length p) s) t dt -> hop p (single_source (length p) s) v dv ->
+  (pair_dependency p s t v ==
+   if Nat.leb dv dt
+   then qn (length (shortest_paths p s v dv)) * qn (length (shortest_paths p v t (dt - dv)))
+        / qn (length (shortest_paths p s t dt))
+   else 0)%Q.
+Proof.
+  intros Hwf Hnd Hs Ht Hv Hht Hhv.
+  apply (sdist_hop p s t dt Hwf Hs Ht) in Hht. apply (sdist_hop p s v dv Hwf Hs Hv) in Hhv.
+  destruct (Nat.leb dv dt) eqn:E.
+  - apply Nat.leb_le in E. rewrite (pair_dep_on p s t v dt dv Hwf Hs Ht Hv Hht Hhv E).
+    fold (cntw p dv s v). fold (cntw p (dt - dv) v t). fold (cntw p dt s t).
+    rewrite !cntw_nw by assumption. reflexivity.
+  - apply Nat.leb_gt in E. apply (pair_dep_off p s t v dt dv Hwf Hs Ht Hv Hht Hhv E).
+Qed.
